@@ -49,15 +49,15 @@ where
         guard(|| {
             let x = PairingOutput::<E>(build::<E::TargetField>(raw));
             let mut w = CountingWriter::new();
-            let size = x.serialized_size(c);
-            let r = x.serialize_with_mode(&mut w, c);
+            let size = crate::api::size(&x, c);
+            let r = crate::api::ser(&x, &mut w, c);
             SerOut { bytes: w.buf, size_reported: size, err: r.err().map(errs) }
         })
     }
     fn deser(&self, bytes: &[u8], c: Compress, v: Validate, advertised: usize) -> P<DeOut> {
         guard(|| {
             let mut rd = CountingReader::new(bytes, advertised);
-            let result = PairingOutput::<E>::deserialize_with_mode(&mut rd, c, v).map(|x| (unbuild(&x.0), 0u8)).map_err(errs);
+            let result = crate::api::de::<PairingOutput<E>, _>(&mut rd, c, v).map(|x| (unbuild(&x.0), 0u8)).map_err(errs);
             DeOut { result, consumed: rd.pos, over_budget: rd.over_budget }
         })
     }
